@@ -325,10 +325,160 @@ async fn run_case(c: Case) -> Outcome {
     o
 }
 
+
+// ------------------------------------------------------------------ wire-level variant (frame translation)
+
+#[derive(Clone, Debug, Serialize, Deserialize)]
+pub enum WOp {
+    Join,
+    Interested(u16),
+    NotInterested(u16),
+    Rotate,
+    Leave(u16),
+}
+
+#[derive(Clone, Debug, Serialize, Deserialize)]
+pub struct WCase {
+    pub initial: u8,
+    pub ops: Vec<WOp>,
+    pub seed: u64,
+}
+
+fn wire_strategy() -> BoxedStrategy<WCase> {
+    let op = prop_oneof![
+        2 => Just(WOp::Join),
+        5 => any::<u16>().prop_map(WOp::Interested),
+        2 => any::<u16>().prop_map(WOp::NotInterested),
+        4 => Just(WOp::Rotate),
+        1 => any::<u16>().prop_map(WOp::Leave),
+    ];
+    (prop_oneof![0u8..6, 9u8..15], vec(op, 0..25), any::<u64>()).prop_map(|(initial, ops, seed)| WCase { initial, ops, seed }).boxed()
+}
+
+pub fn check_wire(c: &WCase) -> Outcome {
+    use crate::net::Net;
+    use crate::refmodel::wire::RFrame;
+    use crate::swarm::{self, World};
+    let mut o = Outcome::new();
+    fresh_cwd();
+    let t = Torrent::new(Geometry::single(4, 16, c.seed));
+    let c2 = c.clone();
+    let t2 = t.clone();
+    let res = swarm::run(c.seed, &t, move |w: &mut World| {
+        Box::pin(async move {
+            let c = c2;
+            let mut net = Net::new(&t2);
+            let mut fails: Vec<(String, String)> = vec![];
+            let mut classes: Vec<&'static str> = vec![];
+            let mut told: Vec<bool> = vec![]; // per peer: last Choke/Unchoke frame read (true = choked)
+            let mut seen: Vec<usize> = vec![];
+            let mut ops: Vec<WOp> = (0..c.initial).map(|_| WOp::Join).collect();
+            ops.extend(c.ops.iter().cloned());
+            for (k, op) in ops.iter().enumerate() {
+                if w.fatal().is_some() || !fails.is_empty() {
+                    break;
+                }
+                let live: Vec<usize> = (0..net.peers.len()).filter(|p| net.alive(w, *p)).collect();
+                let pick = |i: u16| if live.is_empty() { None } else { Some(live[idx(i, live.len())]) };
+                match op {
+                    WOp::Join => {
+                        if live.len() < 16 {
+                            let p = net.connect(w, false);
+                            net.handshake(w, p);
+                            net.bitfield(w, p, &[true, true, true, true]);
+                            told.push(true);
+                            seen.push(0);
+                        }
+                    }
+                    WOp::Interested(i) => {
+                        if let Some(p) = pick(*i) {
+                            net.interested(w, p, true);
+                        }
+                    }
+                    WOp::NotInterested(i) => {
+                        if let Some(p) = pick(*i) {
+                            net.interested(w, p, false);
+                        }
+                    }
+                    WOp::Leave(i) => {
+                        if let Some(p) = pick(*i) {
+                            net.disconnect(w, p);
+                        }
+                    }
+                    WOp::Rotate => {
+                        w.advance_by(std::time::Duration::from_secs(21)).await;
+                        net.fold(w);
+                        let r = swarm::CatchUnwind(Box::pin(w.session.verif_rotate())).await;
+                        match r {
+                            Ok(Ok(())) => classes.push("rotation"),
+                            Ok(Err(e)) => fails.push(("rotation-error".into(), format!("{}", e))),
+                            Err(pn) => fails.push(("rotation-panic".into(), pn)),
+                        }
+                    }
+                }
+                net.observe(w).await;
+                if w.fatal().is_some() {
+                    break;
+                }
+                for (pi, rp) in net.peers.iter().enumerate() {
+                    for (_, f) in &rp.log[seen[pi]..] {
+                        match f {
+                            RFrame::Choke => {
+                                told[pi] = true;
+                                classes.push("choke-frame");
+                            }
+                            RFrame::Unchoke => told[pi] = false,
+                            _ => {}
+                        }
+                    }
+                    seen[pi] = rp.log.len();
+                }
+                let snap = w.snapshot();
+                let unchoked = snap.peers.iter().filter(|p| !p.am_choked).count();
+                let regular = snap.peers.iter().filter(|p| !p.am_choked && !p.optimistic_unchoke).count();
+                if unchoked > 11 || regular > 10 {
+                    fails.push(("more-than-10+1-unchoked".into(), format!("after op {} {:?}: {} unchoked, {} of them regular", k, op, unchoked, regular)));
+                }
+                if unchoked >= 10 {
+                    classes.push("slots-full");
+                }
+                for ps in &snap.peers {
+                    if let Some(pi) = net.peers.iter().position(|rp| rp.addr == ps.addr) {
+                        if net.alive(w, pi) && told[pi] != ps.am_choked {
+                            fails.push((
+                                "choke-frames-differ-from-am-choked".into(),
+                                format!("after op {} {:?}: by the Choke/Unchoke frames it received peer {} is {}, the manager has am_choked={}", k, op, ps.addr, if told[pi] { "choked" } else { "unchoked" }, ps.am_choked),
+                            ));
+                        }
+                    }
+                }
+            }
+            (fails, classes, w.fatal(), net.peers.len())
+        })
+    });
+    match res {
+        Err(p) => o.fail(panic_signature(&p), format!("runtime panic: {}", p)),
+        Ok((fails, classes, fatal, npeers)) => {
+            for cl in classes {
+                o.class(cl);
+            }
+            o.class_if(npeers >= 12, ">=12-peers");
+            for (s, d) in fails {
+                o.fail(s, d);
+            }
+            if let Some((s, d)) = fatal {
+                o.fail(s, d);
+            }
+        }
+    }
+    o.nontrivial = o.classes.contains(&">=12-peers") && o.classes.contains(&"rotation");
+    o
+}
+
 pub fn def() -> PropDef {
     PropDef {
         id: "C14",
-        rule: "sub commands: a history of up to 120 manager commands {peer added, bitfield arrives, interested, not-interested, stats(rate_down, rate_up) with ties, stats for all, rotate, peer leaves} over 0-25 peers in leeching or seeding mode, each passed to the real handle_peer_cmd / timeout_change_conn_state (hooks). Oracle after every step: <= 11 peers unchoked, <= 10 non-optimistic unchoked; the fold of what each peer was told (with_am_unchoked replies, am_choked_map broadcasts) equals am_choked; after every rotation that is carried out: regular slot holders are interested, no choked interested peer has a strictly higher rate (upload rate when leeching, download rate when seeding, as the manager documents) than a holder nor is left choked while slots are free, peers without interest are choked (optimistic one excepted). Non-trivial = >= 12 bitfields before the first rotation, or a rotation with > 10 interested peers and a rate tie across the cut; distinct by hash of the case.",
+        rule: "sub commands: a history of up to 120 manager commands {peer added, bitfield arrives, interested, not-interested, stats(rate_down, rate_up) with ties, stats for all, rotate, peer leaves} over 0-25 peers in leeching or seeding mode, each passed to the real handle_peer_cmd / timeout_change_conn_state (hooks). Oracle after every step: <= 11 peers unchoked, <= 10 non-optimistic unchoked; the fold of what each peer was told (with_am_unchoked replies, am_choked_map broadcasts) equals am_choked; after every rotation that is carried out: regular slot holders are interested, no choked interested peer has a strictly higher rate (upload rate when leeching, download rate when seeding, as the manager documents) than a holder nor is left choked while slots are free, peers without interest are choked (optimistic one excepted). Sub wire: up to 16 real connections on the swarm runtime (handshake, bitfield, interest changes, leaves, the real rotation after 21 virtual seconds): the fold of the Choke/Unchoke frames each peer actually received equals am_choked, and the slot bounds hold. Non-trivial (commands) = >= 12 bitfields before the first rotation, or a rotation with > 10 interested peers and a rate tie across the cut; distinct by hash of the case.",
         assumptions: &[
             "every command used can be emitted by a connection task at any time (RecvBitfield, RecvInterested, RecvNotInterested, SyncStats, KillReq); PrepareKill replies are followed by the peer's removal as the task would do",
             "which measured rate ranks peers (uploaded while leeching, downloaded while seeding) is taken from the manager's own documented choice",
@@ -339,6 +489,13 @@ pub fn def() -> PropDef {
             run: |ctx| run_proptest(ctx, "commands", strategy(), check),
             replay: |v| replay_case::<Case>(v, check),
             min_class: &[("rotation-carried-out", 0.3), ("optimistic-round", 0.1), (">=12-bitfields-before-first-rotation", 0.02), ("rotation->10-interested", 0.01), ("seeding", 0.2504)],
+        },
+        Sub {
+            name: "wire",
+            cases: |t| t.pick(1_500, 30_000),
+            run: |ctx| run_proptest(ctx, "wire", wire_strategy(), check_wire),
+            replay: |v| replay_case::<WCase>(v, check_wire),
+            min_class: &[("rotation", 0.4), (">=12-peers", 0.15), ("choke-frame", 0.1), ("slots-full", 0.2)],
         }],
     }
 }
